@@ -17,6 +17,7 @@ import (
 	nh "net/http"
 	"net/http/httptest"
 	"os"
+	"regexp"
 	"sort"
 	"strconv"
 	"strings"
@@ -37,6 +38,13 @@ type tmpl struct {
 	Name   string
 	Body   string // handler body; may call gate(n)
 	Server string // alternative: a whole script building $server (middlewares + route /p); requests go through its mux
+	// generated families (gen.go)
+	Family  string   // "" for the hand-written templates
+	Pre     string   // class / function definitions placed before the handler closure
+	Paths   []string // request k goes to Paths[k % len] (default /p)
+	Dims    []int    // position in the family's product, for the reduction of failing templates
+	ThrowOK bool     // a request served alone may end in its own uncaught exception "throw:Exception:<n>"
+	Light   bool     // not the simplest value of a secondary dimension: gate granularity only at quick
 }
 
 // view template used by the "view-render" handler: the same variable is interpolated before and
@@ -92,12 +100,16 @@ func script(t tmpl) string {
 	if t.Server != "" {
 		return t.Server + "\n"
 	}
-	return "$h = function($r, $w) {\n  " + strings.ReplaceAll(t.Body, "@VIEW@", viewFile()) + "\n};\n"
+	return t.Pre + "$h = function($r, $w) {\n  " + strings.ReplaceAll(t.Body, "@VIEW@", viewFile()) + "\n};\n"
 }
 
-func request(k int) *nh.Request {
+func request(t tmpl, k int) *nh.Request {
 	id := fmt.Sprint(k + 1)
-	req := httptest.NewRequest("POST", "/p?n="+id, strings.NewReader("p=P"+id))
+	path := "/p"
+	if len(t.Paths) > 0 {
+		path = t.Paths[k%len(t.Paths)]
+	}
+	req := httptest.NewRequest("POST", path+"?n="+id, strings.NewReader("p=P"+id))
 	req.Header.Set("Content-Type", "application/x-www-form-urlencoded")
 	req.Header.Set("X-Id", "id"+id)
 	req.AddCookie(&nh.Cookie{Name: "c", Value: "C" + id})
@@ -107,6 +119,7 @@ func request(k int) *nh.Request {
 type resp struct {
 	Code   int    `json:"code"`
 	XEcho  string `json:"x_echo,omitempty"`
+	Hdr    string `json:"hdr,omitempty"` // every response header, sorted
 	Body   string `json:"body"`
 	Err    string `json:"err,omitempty"`
 	Stdout string `json:"stdout,omitempty"`
@@ -118,6 +131,7 @@ func (r resp) String() string {
 }
 
 type server struct {
+	t    tmpl
 	sess *runner.Session
 	h    nh.Handler
 	err  string
@@ -128,8 +142,10 @@ func newServer(t tmpl) *server {
 		ohttp.Load(vm)
 		vm.(*ort.VM).RegisterFunction("gate", func(n int) int { vshim.Yield("gate"); return n })
 		vm.(*ort.VM).RegisterFunction("toint", func(s string) int { n, _ := strconv.Atoi(s); return n })
+		// pass($x) returns its (string) argument and is a gate: a scheduling point inside an expression
+		vm.(*ort.VM).RegisterFunction("pass", func(s string) string { vshim.Yield("gate"); return s })
 	}})
-	sv := &server{sess: s}
+	sv := &server{sess: s, t: t}
 	if res.Kind != "ok" {
 		sv.err = "define:" + res.Kind + ":" + res.Msg + res.PanicKey
 		return sv
@@ -159,12 +175,35 @@ func newServer(t tmpl) *server {
 
 func (sv *server) serve(k int) resp {
 	rec := httptest.NewRecorder()
-	g := runner.Guard(func() { sv.h.ServeHTTP(rec, request(k)) })
-	r := resp{Code: rec.Code, Body: rec.Body.String(), XEcho: rec.Result().Header.Get("X-Echo")}
+	g := runner.Guard(func() { sv.h.ServeHTTP(rec, request(sv.t, k)) })
+	r := resp{Code: rec.Code, Body: normBody(rec.Body.String()), XEcho: rec.Result().Header.Get("X-Echo"), Hdr: headerString(rec.Result().Header)}
 	if g.Kind != "ok" {
 		r.Err = g.Kind + ":" + g.Class + ":" + trunc(g.Msg, 120) + g.PanicKey
 	}
 	return r
+}
+
+// the built-in response envelope of success()/error() carries time.Now().Unix(): a wall-clock
+// field, not request data - it is masked before responses are compared
+var tsRe = regexp.MustCompile(`"timestamp":\d+`)
+
+func normBody(s string) string { return tsRe.ReplaceAllString(s, `"timestamp":0`) }
+
+func headerString(h nh.Header) string {
+	var ks []string
+	for k := range h {
+		ks = append(ks, k)
+	}
+	sort.Strings(ks)
+	var b strings.Builder
+	for _, k := range ks {
+		b.WriteString(k + "=" + strings.Join(h[k], ",") + ";")
+	}
+	return b.String()
+}
+
+func (r resp) same(o resp) bool {
+	return r.Code == o.Code && r.Body == o.Body && r.XEcho == o.XEcho && r.Hdr == o.Hdr && r.Err == o.Err
 }
 
 func trunc(s string, n int) string {
@@ -203,13 +242,26 @@ func (s scenario) String() string {
 	return fmt.Sprintf("%s x%d %s pb=%d", s.Tmpl, s.N, g, s.Bound)
 }
 
-func findT(name string) tmpl {
+var byName map[string]tmpl
+
+func init() {
+	templates = append(templates, carryTemplates()...)
+	templates = append(templates, routesTemplates()...)
+	byName = make(map[string]tmpl, len(templates))
 	for _, t := range templates {
-		if t.Name == name {
-			return t
+		if _, dup := byName[t.Name]; dup {
+			panic("duplicate template " + t.Name)
 		}
+		byName[t.Name] = t
 	}
-	panic("no template " + name)
+}
+
+func findT(name string) tmpl {
+	t, ok := byName[name]
+	if !ok {
+		panic("no template " + name)
+	}
+	return t
 }
 
 type state struct {
@@ -280,9 +332,16 @@ func carriers(x *sched.Exec) string {
 
 var budgetSec = 120
 
+// a shard is a batch of scenarios (the generated families have thousands of small ones)
 func explore(w *pool.W, arg json.RawMessage) {
-	var sc scenario
-	json.Unmarshal(arg, &sc)
+	var scs []scenario
+	json.Unmarshal(arg, &scs)
+	for _, sc := range scs {
+		exploreOne(w, sc)
+	}
+}
+
+func exploreOne(w *pool.W, sc scenario) {
 	if !w.Item(sc.String()) {
 		return
 	}
@@ -292,7 +351,7 @@ func explore(w *pool.W, arg json.RawMessage) {
 	for k := range want {
 		want[k] = solo(t, k)
 		solos = append(solos, want[k].String())
-		if want[k].Err != "" {
+		if want[k].Err != "" && !(t.ThrowOK && want[k].Err == fmt.Sprintf("throw:Exception:%d", k+1)) {
 			w.Emit(rec{Kind: "fail", Scenario: sc, Key: "harness:solo-error:" + sc.Tmpl, Clause: "harness", Detail: "the template does not even work for one request alone: " + want[k].String(), Case: sc})
 			w.Emit(rec{Kind: "done", Scenario: sc, Solo: solos})
 			return
@@ -311,7 +370,7 @@ func explore(w *pool.W, arg json.RawMessage) {
 		cs.Choices = x.Choices()
 		cs.Sites = sched.RelevantSites()
 		w.Emit(rec{Kind: "fail", Scenario: sc, Key: key, Clause: clause, Size: sc.N*100000 + len(x.Events), Case: cs,
-			Detail: detail + "\nscenario: " + sc.String() + "\nhandler: " + t.Body + "\nschedule: " + strings.Join(x.Schedule(), " ")})
+			Detail: detail + "\nscenario: " + sc.String() + "\nhandler: " + script(t) + "\nschedule: " + strings.Join(x.Schedule(), " ")})
 	}
 	cfg.Check = func(x *sched.Exec) {
 		st := get()
@@ -341,7 +400,7 @@ func explore(w *pool.W, arg json.RawMessage) {
 		}
 		for k, r := range st.resps {
 			exp := want[k]
-			if r.Code != exp.Code || r.Body != exp.Body || r.XEcho != exp.XEcho || r.Err != exp.Err {
+			if !r.same(exp) {
 				emit(x, "interference:"+sc.Tmpl, "response-equals-solo",
 					fmt.Sprintf("request %d served concurrently got %s but alone it gets %s", k+1, r.String(), exp.String()))
 			}
@@ -362,6 +421,101 @@ func explore(w *pool.W, arg json.RawMessage) {
 	w.Emit(rec{Kind: "done", Scenario: sc, Execs: stt.Execs, Complete: stt.Complete, Stop: stt.StopReason, Outcomes: oc, Sites: stt.Relevant, Solo: solos})
 }
 
+// scenariosFor lists the scenarios (granularity x requests x preemption bound) of one template.
+func scenariosFor(t tmpl, quick bool) []scenario {
+	var scs []scenario
+	add := func(n, bound int, gates bool) {
+		scs = append(scs, scenario{Tmpl: t.Name, N: n, Bound: bound, GateOnly: gates})
+	}
+	// templates that read superglobals share one cached object between requests (a listed
+	// finding): its mutex makes the interleaving space large, so they get smaller bounds
+	heavy := strings.Contains(t.Body, "$_")
+	switch {
+	case t.Family == "carry":
+		// 4-6 gates per request. Gate granularity is what shows state parked in shared AST nodes /
+		// callee objects (struct fields are not instrumented accesses); access granularity is run
+		// for the direct route and the holders.
+		if quick {
+			add(2, -1, true)
+			add(3, 1, true)
+			if !t.Light {
+				add(2, 1, false)
+			}
+		} else {
+			add(2, -1, true)
+			add(3, 3, true)
+			add(2, 3, false)
+			add(3, 1, false)
+		}
+	case t.Family == "routes":
+		// 2-4 gates per request; request 3 goes to group /a again
+		if quick {
+			add(2, -1, true)
+			if !t.Light {
+				add(3, 1, true)
+				add(2, 1, false)
+			}
+		} else {
+			add(2, -1, true)
+			add(3, -1, true)
+			add(2, 2, false)
+			add(3, 1, false)
+		}
+	case quick && heavy:
+		add(2, 1, true)
+		add(2, 1, false)
+	case quick && t.Name == "view-render":
+		// the template engine takes an order of magnitude more locks per request: bounds
+		// chosen so that the quick tier completes them (the thorough tier goes further)
+		add(2, 3, true)
+		add(2, 2, false)
+		add(3, 2, true)
+		add(3, 1, false)
+	case quick:
+		add(2, -1, true)
+		add(2, 3, false)
+		add(3, 2, true)
+		add(3, 1, false)
+	case heavy:
+		add(2, 2, true)
+		add(2, 2, false)
+	default:
+		add(2, -1, true)
+		add(2, -1, false)
+		add(3, -1, true)
+		add(3, 2, false)
+	}
+	return scs
+}
+
+// probe prints what every selected template answers to requests 1..3 served alone (used before new
+// alphabet entries are admitted: a template that fails alone is a harness error, not a finding).
+func probe(sel func(tmpl) bool) {
+	if b, err := os.ReadFile(os.Getenv("C11_PROBE")); err == nil {
+		// an ad-hoc server script (development aid)
+		t := tmpl{Name: "adhoc", Server: string(b), Paths: []string{"/a/p", "/b/p"}}
+		for k := 0; k < 2; k++ {
+			fmt.Println(solo(t, k).String())
+		}
+		return
+	}
+	for _, t := range templates {
+		if !sel(t) {
+			continue
+		}
+		bad := ""
+		var rs []string
+		for k := 0; k < 3; k++ {
+			r := solo(t, k)
+			rs = append(rs, r.String())
+			if r.Err != "" && !(t.ThrowOK && r.Err == fmt.Sprintf("throw:Exception:%d", k+1)) {
+				bad = "  <<< FAILS ALONE"
+			}
+		}
+		fmt.Printf("%s%s\n    %s\n", t.Name, bad, strings.Join(rs, "\n    "))
+	}
+}
+
 func main() {
 	if pool.IsWorker() {
 		if v := os.Getenv("C11_BUDGET"); v != "" {
@@ -380,59 +534,88 @@ func main() {
 		replay(c)
 		return
 	}
-	var scs []scenario
-	for _, t := range templates {
-		if only := os.Getenv("C11_ONLY"); only != "" && only != t.Name {
-			continue
+	// C11_ONLY=<name or prefix*> restricts the run (development aid)
+	sel := func(t tmpl) bool {
+		only := os.Getenv("C11_ONLY")
+		if only == "" {
+			return true
 		}
-		// templates that read superglobals share one cached object between requests (a listed
-		// finding): its mutex makes the interleaving space large, so they get smaller bounds
-		heavy := strings.Contains(t.Body, "$_")
-		if c.Quick() {
-			if heavy {
-				scs = append(scs, scenario{Tmpl: t.Name, N: 2, Bound: 1, GateOnly: true})
-				scs = append(scs, scenario{Tmpl: t.Name, N: 2, Bound: 1})
-			} else if t.Name == "view-render" {
-				// the template engine takes an order of magnitude more locks per request: bounds
-				// chosen so that the quick tier completes them (the thorough tier goes further)
-				scs = append(scs, scenario{Tmpl: t.Name, N: 2, Bound: 3, GateOnly: true})
-				scs = append(scs, scenario{Tmpl: t.Name, N: 2, Bound: 2})
-				scs = append(scs, scenario{Tmpl: t.Name, N: 3, Bound: 2, GateOnly: true})
-				scs = append(scs, scenario{Tmpl: t.Name, N: 3, Bound: 1})
-			} else {
-				scs = append(scs, scenario{Tmpl: t.Name, N: 2, Bound: -1, GateOnly: true})
-				scs = append(scs, scenario{Tmpl: t.Name, N: 2, Bound: 3})
-				scs = append(scs, scenario{Tmpl: t.Name, N: 3, Bound: 2, GateOnly: true})
-				scs = append(scs, scenario{Tmpl: t.Name, N: 3, Bound: 1})
-			}
-		} else {
-			if heavy {
-				scs = append(scs, scenario{Tmpl: t.Name, N: 2, Bound: 2, GateOnly: true})
-				scs = append(scs, scenario{Tmpl: t.Name, N: 2, Bound: 2})
-			} else {
-				scs = append(scs, scenario{Tmpl: t.Name, N: 2, Bound: -1, GateOnly: true})
-				scs = append(scs, scenario{Tmpl: t.Name, N: 2, Bound: -1})
-				scs = append(scs, scenario{Tmpl: t.Name, N: 3, Bound: -1, GateOnly: true})
-				scs = append(scs, scenario{Tmpl: t.Name, N: 3, Bound: 2})
-			}
+		if strings.HasSuffix(only, "*") {
+			return strings.HasPrefix(t.Name, strings.TrimSuffix(only, "*"))
 		}
+		return only == t.Name
+	}
+	if os.Getenv("C11_PROBE") != "" {
+		probe(sel)
+		return
 	}
 	if !c.Quick() {
 		budgetSec = 900
 	}
+	// one shard per scenario of the hand-written templates (they are the long ones), batches of
+	// family scenarios (short ones); the long shards go first
 	var shards []pool.Shard
-	for _, s := range scs {
-		shards = append(shards, pool.Shard{Kind: "explore", Arg: s})
+	var small []scenario
+	nsc, ntm := 0, map[string]int{}
+	for _, t := range templates {
+		if !sel(t) {
+			continue
+		}
+		fam := t.Family
+		if fam == "" {
+			fam = "hand-written"
+		}
+		ntm[fam]++
+		for _, sc := range scenariosFor(t, c.Quick()) {
+			nsc++
+			if t.Family == "" {
+				shards = append(shards, pool.Shard{Kind: "explore", Arg: []scenario{sc}})
+			} else {
+				small = append(small, sc)
+			}
+		}
+	}
+	// deal the family scenarios round-robin into batches so that every batch gets the same mix
+	nb := (len(small) + 23) / 24
+	if nb > 0 {
+		batches := make([][]scenario, nb)
+		for i, sc := range small {
+			batches[i%nb] = append(batches[i%nb], sc)
+		}
+		for _, b := range batches {
+			shards = append(shards, pool.Shard{Kind: "explore", Arg: b})
+		}
 	}
 	var execs int64
 	complete, stopped, outcomes := 0, 0, 0
 	per := map[string]any{}
+	type famStat struct {
+		Scenarios, Complete int
+		Executions          int64
+		MaxExecutions       int64
+	}
+	fam := map[string]*famStat{}
+	type pending struct {
+		r rec
+		t tmpl
+	}
+	var tmplKeyed []pending // failures whose key names the template: reduced after the run
+	failingT := map[string]map[string]bool{}
 	pool.Run(shards, pool.Options{HangTimeout: 30 * time.Minute, Env: []string{fmt.Sprintf("C11_BUDGET=%d", budgetSec)}}, func(si int, rb json.RawMessage) {
 		var r rec
 		json.Unmarshal(rb, &r)
+		t := findT(r.Scenario.Tmpl)
 		switch r.Kind {
 		case "fail":
-			c.Fail(r.Key, r.Clause, r.Size, r.Case, r.Detail)
+			if pre, _, ok := strings.Cut(r.Key, ":"); ok && t.Family != "" && strings.HasSuffix(r.Key, ":"+t.Name) {
+				if failingT[pre] == nil {
+					failingT[pre] = map[string]bool{}
+				}
+				failingT[pre][t.Name] = true
+				tmplKeyed = append(tmplKeyed, pending{r, t})
+			} else {
+				c.Fail(r.Key, r.Clause, r.Size, r.Case, r.Detail)
+			}
 		case "done":
 			execs += r.Execs
 			outcomes += len(r.Outcomes)
@@ -445,6 +628,30 @@ func main() {
 				stopped++
 				c.NotExhaustive(fmt.Sprintf("scenario %s stopped (%s) after %d executions", r.Scenario, r.Stop, r.Execs))
 			}
+			if t.Family != "" {
+				g := "gates"
+				if !r.Scenario.GateOnly {
+					g = "accesses"
+				}
+				k := fmt.Sprintf("%s x%d %s pb=%d", t.Family, r.Scenario.N, g, r.Scenario.Bound)
+				fs := fam[k]
+				if fs == nil {
+					fs = &famStat{}
+					fam[k] = fs
+				}
+				fs.Scenarios++
+				fs.Executions += r.Execs
+				if r.Execs > fs.MaxExecutions {
+					fs.MaxExecutions = r.Execs
+				}
+				if r.Complete {
+					fs.Complete++
+				}
+				if t.Dims[len(t.Dims)-1] == 0 && r.Scenario.N == 2 && r.Scenario.GateOnly && (t.Family == "carry" || (t.Dims[2] == 0 && t.Dims[3] == 4 && t.Dims[0] == t.Dims[1])) {
+					per[r.Scenario.String()] = map[string]any{"executions": r.Execs, "complete": r.Complete, "solo": r.Solo, "outcomes": r.Outcomes}
+				}
+				break
+			}
 			per[r.Scenario.String()] = map[string]any{"executions": r.Execs, "complete": r.Complete, "choice_sites": r.Sites, "solo": r.Solo, "outcomes": r.Outcomes}
 			if r.Scenario.N == 2 && r.Scenario.GateOnly {
 				c.Sample(map[string]any{"scenario": r.Scenario.String(), "handler": findT(r.Scenario.Tmpl).Body, "solo_responses": r.Solo, "executions": r.Execs})
@@ -453,13 +660,34 @@ func main() {
 	}, func(d pool.Death) {
 		c.Fail("worker-death:"+runner.FatalFrame(d.Stderr), "no-crash", 0, map[string]any{"item": d.Item, "reason": d.Reason}, d.Stderr)
 	})
-	c.Set("scenarios", len(scs))
+	// family failures: one root cause fails many templates of the product; reduce each failing
+	// template through the set of failing templates and key the finding by the reduced one
+	for _, p := range tmplKeyed {
+		pre, _, _ := strings.Cut(p.r.Key, ":")
+		red := reduceTemplate(p.t, failingT[pre])
+		size := p.r.Size
+		if red != p.t.Name {
+			size += 10000000 // the replay case kept for a key is the reduced template's own, if it failed
+		}
+		c.Fail(pre+":"+red, p.r.Clause, size, p.r.Case, p.r.Detail)
+	}
+	c.Set("templates", ntm)
+	c.Set("scenarios", nsc)
 	c.Set("scenarios_complete", complete)
 	c.Set("scenarios_stopped_by_deadline", stopped)
 	c.Set("per_scenario", per)
+	c.Set("per_family", fam)
+	c.Set("family_templates_failing", func() map[string]int {
+		m := map[string]int{}
+		for pre, s := range failingT {
+			m[pre] = len(s)
+		}
+		return m
+	}())
 	c.Assume("requests are served through nethttp.Handler.ServeHTTP on one shared VM/closure exactly as ServerHandleMethod wires them; the TCP/net/http layer below is not part of the explored state")
 	c.Assume("more than 3 overlapping requests and shared state in packages that govis does not instrument are outside the bound")
-	c.Finish(int64(outcomes), execs, execs, "17 handler templates x {2 requests unbounded at gate granularity, 2 requests preemption bound 2 at shared-access granularity (thorough: 3 requests, bound 3)}; every interleaving; each response compared with the same request served alone; states = distinct response vectors")
+	c.Assume("the built-in success()/error() envelope carries time.Now().Unix(); that field is masked before responses are compared")
+	c.Finish(int64(outcomes), execs, execs, fmt.Sprintf("%d hand-written handler templates + %d carry templates (callable forms x call routes, holders) + %d routes templates (two route groups: onFormat x onError x middleware x action pairs); 2 and 3 concurrent requests; every interleaving at gate granularity (2 requests: unbounded) and at shared-access granularity within a preemption bound; each response (status, all headers, body) compared with the same request served alone; states = distinct response vectors", ntm["hand-written"], ntm["carry"], ntm["routes"]))
 }
 
 func replay(c *ev.Check) {
@@ -487,13 +715,13 @@ func replay(c *ev.Check) {
 		o := strings.Join(os, " ; ")
 		if i == 0 {
 			first = o
-			fmt.Println("handler:", t.Body)
+			fmt.Println("handler:", script(t))
 			fmt.Println("schedule:", strings.Join(x.Schedule(), " "))
 			fmt.Println("responses:", o)
 			for k, r := range st.resps {
 				exp := solo(t, k)
 				fmt.Printf("request %d alone: %s\n", k+1, exp.String())
-				if r.Code != exp.Code || r.Body != exp.Body || r.XEcho != exp.XEcho || r.Err != exp.Err {
+				if !r.same(exp) {
 					c.Fail("interference:"+sc.Tmpl, "response-equals-solo", 0, sc, "replayed")
 				}
 			}
